@@ -273,7 +273,7 @@ def gen_scenario(rng):
     init_size = 0 if init_cl == 0 else rng.choice([init_cl * cs, (init_cl - 1) * cs + rng.randint(1, cs)])
     scn = {'fat_type': ft, 'n_clusters': n, 'spc': spc, 'extra': rng.choice([0, 1, 7, 40]), 'fsinfo': True, 'info': None,
            'fragment': rng.random() < 0.6, 'seed': rng.randrange(1 << 30), 'init_size': init_size,
-           'free': rng.choice([0, 1, 2, 3, 5, 8, rng.randint(0, n), n]), 'dirmode': rng.random() < 0.06}
+           'free': rng.choice([0, 1, 2, 3, 5, 8, rng.randint(0, n), rng.randint(0, n), n, n]), 'dirmode': rng.random() < 0.06}
     if scn['dirmode']:
         scn['init_size'] = 0
     if ft == 'fat32':
@@ -304,12 +304,18 @@ def gen_op(rng, v, size, pos, nmap, readable):
         return ('seek', w, off)
     if r < 0.60:
         room = max(0, avail * cs - pos)
-        n = rng.choice([0, 1, cs - 1, cs, cs + 1, 2 * cs, rng.randint(0, 3 * cs), rng.randint(0, 3 * cs),
-                        max(0, cs - pos % cs), rng.randint(0, room + cs), room, room + 1])
+        if rng.random() < 0.14:                          # up to / just beyond what the volume can hold
+            n = rng.choice([rng.randint(0, room + cs), room, room + 1])
+        else:
+            n = rng.choice([0, 1, cs - 1, cs, cs + 1, 2 * cs, rng.randint(0, 3 * cs), rng.randint(0, 3 * cs),
+                            max(0, cs - pos % cs), rng.randint(0, cs)])
+            if rng.random() < 0.5:
+                n = min(n, room)
         return ('write', rng.randrange(1 << 16), n)
     if r < 0.78:
-        t = rng.choice([None, None, 0, size, near(size), near(pos), rng.randint(0, (avail + 1) * cs),
-                        rng.randint(0, avail) * cs, rng.randint(0, size), (avail + 1) * cs + rng.randint(0, cs)])
+        t = rng.choice([None, None, 0, size, near(size), near(pos), rng.randint(0, avail * cs), rng.randint(0, size),
+                        rng.randint(0, avail) * cs, rng.randint(0, size), size // 2,
+                        (avail + 1) * cs + rng.randint(0, cs)])
         return ('truncate', t)
     if not readable:
         return ('seek', 0, rng.randint(0, size + cs))
@@ -370,11 +376,21 @@ def run_session(ctx, R, v, mode, nops, counters, replay, ref):
         op = gen_op(rng, v, size, f.tell(), len(f._map), readable)
         ops.append([None if x is None else x for x in op])
         free_before, nmap_before = v.free_count(), len(f._map)
+        pos_before = f.tell()
         res = do_op(f, op)
         results.append(res)
         snaps.append(v.snapshot(f))
         counters['steps'] += 1
         kind = op[0] + ('' if res[0] != 'err' else ':' + res[1])
+        if op[0] == 'write':
+            if pos_before > size:
+                ctx.stat('write-into-hole')
+            if pos_before % v.cs + op[2] > v.cs:
+                ctx.stat('write-straddles-clusters')
+            if res[0] == 'err' and f.tell() > pos_before:
+                ctx.stat('write-enospc-partial')
+        elif op[0] == 'truncate' and res[0] == 'num':
+            ctx.stat('truncate-grow' if res[1] > size else 'truncate-shrink' if res[1] < size else 'truncate-same')
         ctx.case((repr(v.scn), len(replay['sessions']), len(ops), repr(op)), True, kind)
         if not dirmode:
             for sig, what in oracle_step(ref, op, res, v, free_before, snaps[-1]['pos'], nmap_before):
@@ -500,8 +516,6 @@ def replay(obj):
         f = v.open(s['mode'])
         for op in s['ops']:
             op = tuple(op)
-            if op == ('truncate', None) and 'w' in s['mode'] and op is s['ops'][0]:
-                pass
             before, nmap = v.free_count(), len(f._map)
             res = do_op(f, op)
             out += [(sig, what) for sig, what in oracle_step(ref, op, res, v, before, f.tell(), nmap)]
